@@ -453,6 +453,9 @@ func (p *Program) paramSeam(prm *ssa.Parameter, ft types.Type, depth int) *seam 
 			}
 		case *ssa.Parameter:
 			sm = p.paramSeam(x, ft, depth+1)
+		case *ssa.Call:
+			// newBuilder(util.NewRandom()): what the library's constructor returns
+			sm = p.callResultSeam(x, ft)
 		}
 		if sm == nil {
 			if _, isIface := ft.Underlying().(*types.Interface); isIface && inRepoConcrete(a.Type()) {
